@@ -23,6 +23,7 @@ EXPLANATION = (
     ' Second session: borrowed rules - ready-probe (C03: the release request sitting in a TLS buffer is seen on every SSLSocket) and provider-survives (C05 artim restricted to the release states Sta7-Sta12).'
     " Fourth session: (provider-survives) also C04's Timer run-state rule; (request-reaches-action) C03's pairing of a queued PDU with its event."
     " Fifth round: (request-reaches-action) borrows C03's one event source per pass; (release-before-timeout) in one pass of the reactor a pending release request is acted on before the network timeout is evaluated."
+    " Sixth round: (provider-survives) also borrows C05's kill-on-idle callers and C23's never-queued."
 )
 
 # (module, qualified function) -> why it may dequeue from to_user_queue
